@@ -21,7 +21,7 @@ NWORK = int(os.environ.get('VERIF_WORKERS', '8'))
 
 SAN_ENV = {
     'ASAN_OPTIONS': 'abort_on_error=0:exitcode=77:detect_leaks=0:allocator_may_return_null=1:'
-                    'detect_stack_use_after_return=0:handle_abort=1:quarantine_size_mb=8:malloc_context_size=8',
+                    'detect_stack_use_after_return=0:handle_abort=1:quarantine_size_mb=8:malloc_context_size=8:hard_rss_limit_mb=6000',
     'UBSAN_OPTIONS': 'halt_on_error=0:print_stacktrace=1',
     'TSAN_OPTIONS': 'halt_on_error=0:exitcode=0:second_deadlock_stack=1:history_size=4:suppressions='
                     + os.path.join(VERIF, 'tools', 'tsan.supp'),
@@ -280,11 +280,19 @@ class Check:
                     'cmd': [exe] + base_args + ['--seed', str(self.seed), '--start', str(case or 0), '--cases', '1']}))
             if not w.done or w.timeout:
                 died = getattr(w, 'died_at', None)
-                if w.timeout:
+                hung = '@HANG' in w.stderr[-200:]
+                if hung:
+                    cls = None
+                    for m in re.finditer(r'^@CLASS (.*)$', w.stderr[-4000:], re.M):
+                        cls = m.group(1).strip()
+                    self.violations.append(Violation('hang|' + (cls or label or os.path.basename(exe)),
+                                                     'per-case watchdog expired at case %s' % died,
+                                                     {'cmd': [exe] + base_args + ['--seed', str(self.seed), '--start', str(died or 0), '--cases', '1']}))
+                elif w.timeout:
                     self.violations.append(Violation('hang|' + (label or os.path.basename(exe)),
                                                      'watchdog expired at case %s' % died,
                                                      {'cmd': w.cmd, 'case': died, 'watchdog': True}))
-                elif not w.san:
+                elif not w.san or 'hard rss limit' in w.stderr[-3000:]:
                     tail = w.stderr[-600:].replace('\n', ' / ')
                     sig = -w.rc if w.rc < 0 else w.rc
                     self.violations.append(Violation('crash:rc%s|%s' % (sig, label or os.path.basename(exe)),
